@@ -172,3 +172,4 @@ _extend("C17", [("c08", "r3_bestof", (), ALL, "the error count and coordinates p
                 ("c13", "r3_scans", (), _has("5' scan", "cutoff per end"), "with a 3'-only cutoff nothing is removed from the 5' end, so printed coordinates refer to the input read")])
 _extend("C18", [("c01", "r1_flags", (), _has("aligner flags"), "'^ADAPTER' / 'ADAPTER$' with indels allowed is searched with indels")])
 _extend("C20", [("c06", "r4_statistics_slots", (), ALL, "per-adapter statistics of both reads are merged from every worker")])
+_extend("C04", [("c15", "r1_reserved_name", (), ALL, "two writers never share a demultiplexing file (reads counted as written are in the files)")])
